@@ -12,7 +12,7 @@ Spec == Init /\ [][CheckStep]_vars
 
 C == Cases[ci]
 Verdict == Check(C.prog, [i \in 1..Len(C.matches) |-> C.matches[i].caps], C.renull)
-WellFormed == Verdict.ok \/ (Verdict.rule \in {"DuplicateGlobalVariable", "UndefinedSyntaxCapture", "CannotHideGlobalVariable",
+WellFormed == phase = "done" => Verdict.ok \/ (Verdict.rule \in {"DuplicateGlobalVariable", "UndefinedSyntaxCapture", "CannotHideGlobalVariable",
    "VariableAlreadyDefined", "CannotSetGlobalVariable", "UndefinedVariable-set", "CannotAssignImmutableVariable", "ExpectedLocalValue",
    "ExpectedListValue", "ExpectedOptionalValue", "NullableRegex", "UndefinedVariable", "UnusedCaptures"} /\ Len(Verdict.loc) = 2)
 Out == phase = "done" => PrintT(<<"VERDICT", ToJson([id |-> C.id, ok |-> Verdict.ok,
